@@ -1,3 +1,48 @@
-From DI Require Import PyStr Copyright.
-Theorem C12_placeholder : True. Proof. exact I. Qed.
-Print Assumptions C12_placeholder.
+(* C12 - Blank lines inside multi-line values are recovered, not paragraph breaks
+   (partial: the theorems settle the look-ahead rule at the point where it applies -
+   for every state of the parser, every current field and every continuation - and
+   that the replaced line is not trimmed later; that the rest of the parse and the
+   copyright object only differ in that line's text is decided by co-execution on
+   all admissible subsets of markers of generated documents). *)
+From Coq Require Import String.
+From Coq Require Import NArith List Bool.
+From DI Require Import Result PyStr Codec Deb822 Deb822Facts BlankFacts.
+Import ListNotations.
+Open Scope N_scope.
+
+(* a continuation line is neither blank nor a declaration *)
+Theorem C12_continuation_is_content : forall v, is_cont v = true -> is_blank v = false /\ is_decl v = false.
+Proof. exact is_cont_facts. Qed.
+Print Assumptions C12_continuation_is_content.
+
+(* with any current field, a marker line and a blank (empty or whitespace-only) line that are
+   followed by a continuation line lead to the same next state: both are appended to the
+   current field, followed by the continuation line - no paragraph break *)
+Theorem C12_blank_absorbed_like_marker : forall f fs n v n2 c rest,
+  is_cont c = true -> (is_cont v = true \/ is_blank v = true) ->
+  groups_loop (mkLine n v :: mkLine n2 c :: rest) (f :: fs) =
+  groups_loop rest (add_continuation (add_continuation f (mkLine n v)) (mkLine n2 c) :: fs).
+Proof. exact blank_absorbed_like_marker. Qed.
+Print Assumptions C12_blank_absorbed_like_marker.
+
+(* the two states differ only in the recorded text of line n *)
+Theorem C12_only_the_line_text_differs : forall f fs n v v' n2 c rest,
+  is_cont c = true -> is_cont v = true -> is_blank v' = true ->
+  exists st st',
+    groups_loop (mkLine n v :: mkLine n2 c :: rest) (f :: fs) = groups_loop rest st /\
+    groups_loop (mkLine n v' :: mkLine n2 c :: rest) (f :: fs) = groups_loop rest st' /\
+    st = mkField (f_name f) (mkLine n2 (rstrip c) :: mkLine n (rstrip v) :: f_lines f) :: fs /\
+    st' = mkField (f_name f) (mkLine n2 (rstrip c) :: mkLine n [] :: f_lines f) :: fs.
+Proof. exact marker_vs_blank. Qed.
+Print Assumptions C12_only_the_line_text_differs.
+
+(* the replaced line is protected from trailing-blank trimming by the continuation above it *)
+Theorem C12_not_trimmed : forall c rl, is_cont c = true -> forall n2,
+  drop_while_lines (fun l => is_blank (ln_val l)) (mkLine n2 (rstrip c) :: rl) = mkLine n2 (rstrip c) :: rl.
+Proof. exact continuation_protects. Qed.
+Print Assumptions C12_not_trimmed.
+
+(* in formatted fields both texts decode to an empty line *)
+Theorem C12_formatted_equal : decode_line [32; 46] = [] /\ decode_line [] = [].
+Proof. exact decode_marker_or_blank. Qed.
+Print Assumptions C12_formatted_equal.
